@@ -1,7 +1,7 @@
 #!/usr/bin/env python3
 """Builds a probe package of /verif/probes in the link modes of .github/runners.sh.
 
-  lib/build_probes.py <package> [mode ...]      modes: dyn-debug dyn-release static-debug static-release pie-debug pie-release
+  lib/build_probes.py <package> [mode ...]      modes: dyn-debug dyn-release static-debug static-release pie-debug pie-release [pierel-debug]
 Prints one line per built variant: `<mode> <absolute path of the executable>`; exit 2 on a build failure.
 Each variant has its own --target-dir (/verif/probes/target-<mode>) so variants never overwrite each other.
 Release builds add `-C llvm-args=-disable-loop-idiom-strlen`: with the installed rustc/LLVM the loop-idiom pass turns
@@ -15,8 +15,13 @@ LINK = {
     "dyn": "",
     "static": " -C target-feature=+crt-static -C relocation-model=static",
     "pie": " -C target-feature=+crt-static -C relocation-model=pie",
+    # static PIE whose dynamic relocations are REL (implicit addends) instead of x86_64's usual RELA; OPTIONAL: needs
+    # a linker that knows `-z rel` (rust-lld does); a failed build of this mode is reported but is not an error
+    "pierel": " -C target-feature=+crt-static -C relocation-model=pie -C link-arg=-Wl,-z,rel",
 }
+OPTIONAL = {"pierel-debug"}
 ALL = ["dyn-debug", "dyn-release", "static-debug", "static-release", "pie-debug", "pie-release"]
+ALL_ENV = ALL + ["pierel-debug"]  # probe-env only
 
 
 def build(package, mode):
@@ -40,12 +45,13 @@ def build(package, mode):
 
 def main():
     package = sys.argv[1]
-    modes = sys.argv[2:] or ALL
+    modes = sys.argv[2:] or (ALL_ENV if package == "probe-env" else ALL)
     ok = True
     for m in modes:
         path = build(package, m)
         if path is None:
-            ok = False
+            if m not in OPTIONAL:
+                ok = False
             print(f"{m} BUILD-FAILED")
         else:
             print(f"{m} {path}")
